@@ -364,7 +364,8 @@ def extract_pty_slave(repo):
     b0 = src.find("{", sig_end)
     body = src[b0 + 1:match_close(src, b0) - 1]
     dep = depths(body)
-    pairs = [mm.group(1) for mm in re.finditer(r"\blet\s+(?:mut\s+)?(\w+)\s*=\s*match\s+\w+\s*\.\s*openpty\s*\(", body) if dep[mm.start()] == 0]
+    lets = [mm for mm in re.finditer(r"\blet\s+(?:mut\s+)?(\w+)\s*=\s*match\s+\w+\s*\.\s*openpty\s*\(", body) if dep[mm.start()] == 0]
+    pairs = [mm.group(1) for mm in lets]
     if len(pairs) != 1:
         return facts, [f"run_pty_task: {len(pairs)} body-level `let <pair> = match <system>.openpty(..)` statement(s)"]
     pair = re.escape(pairs[0])
@@ -372,7 +373,10 @@ def extract_pty_slave(repo):
     loops = [mm.start() for mm in re.finditer(r"\bwhile\s+!\s*\(", body) if dep[mm.start()] == 0]
     slave_uses = [mm.start() for mm in re.finditer(r"\b" + pair + r"\s*\.\s*slave\b", body)]
     drops = [mm.start() for mm in re.finditer(r"\bdrop\s*\(\s*" + pair + r"\s*\.\s*slave\s*\)\s*;", body) if dep[mm.start()] == 0]
-    bare = [mm.start() for mm in re.finditer(r"\b" + pair + r"\b(?!\s*\.\s*(?:slave|master)\b)", body)][1:]
+    # the end of the `let <pair> = match .. { .. };` statement (the arms re-bind the name)
+    arms = body.find("{", match_close(body, lets[0].end() - 1))
+    let_end = match_close(body, arms)
+    bare = [mm.start() for mm in re.finditer(r"\b" + pair + r"\b(?!\s*\.\s*(?:slave|master)\b)", body) if mm.start() > let_end]
     forget = re.search(r"\bforget\s*\(|\bManuallyDrop\b|\bleak\s*\(", body) is not None
     notes.append(f"run_pty_task: pty pair `{pairs[0]}`: {len(spawns)} spawn_command, {len(slave_uses)} mention(s) of .slave, {len(drops)} body-level drop(.slave), {len(loops)} body-level wait loop(s), {len(bare)} other use(s) of the pair")
     facts["slave_spawn_found"] = len(spawns) == 1 and dep[spawns[0]] == 0 and len(loops) == 1 and spawns[0] < loops[0]
